@@ -19,6 +19,10 @@ func ReadFile(name string) ([]byte, error) {
 	if op.Denied() {
 		return nil, vos.ErrKilled
 	}
+	if e := op.Faulted(); e != nil {
+		vos.Leave(op, e)
+		return nil, e
+	}
 	b, err := ioutil.ReadFile(name)
 	vos.Leave(op, err)
 	return b, err
@@ -28,6 +32,10 @@ func WriteFile(name string, data []byte, perm os.FileMode) error {
 	op := vos.Enter("writefile", name, "")
 	if op.Denied() {
 		return vos.ErrKilled
+	}
+	if e := op.Faulted(); e != nil {
+		vos.Leave(op, e)
+		return e
 	}
 	if op != nil {
 		op.Data = append([]byte(nil), data...)
@@ -42,6 +50,10 @@ func ReadDir(name string) ([]os.FileInfo, error) {
 	if op.Denied() {
 		return nil, vos.ErrKilled
 	}
+	if e := op.Faulted(); e != nil {
+		vos.Leave(op, e)
+		return nil, e
+	}
 	r, err := ioutil.ReadDir(name)
 	vos.Leave(op, err)
 	return r, err
@@ -51,6 +63,10 @@ func TempFile(dir, pattern string) (*vos.File, error) {
 	op := vos.Enter("tempfile", dir+"/"+pattern, "")
 	if op.Denied() {
 		return nil, vos.ErrKilled
+	}
+	if e := op.Faulted(); e != nil {
+		vos.Leave(op, e)
+		return nil, e
 	}
 	f, err := ioutil.TempFile(dir, pattern)
 	if err != nil {
@@ -69,6 +85,10 @@ func TempDir(dir, pattern string) (string, error) {
 	op := vos.Enter("mkdirtemp", dir+"/"+pattern, "")
 	if op.Denied() {
 		return "", vos.ErrKilled
+	}
+	if e := op.Faulted(); e != nil {
+		vos.Leave(op, e)
+		return "", e
 	}
 	s, err := ioutil.TempDir(dir, pattern)
 	vos.Leave(op, err)
